@@ -240,11 +240,13 @@ def helper_closure(P, allowed):
     return out
 
 
-def inlined_anchor(P, body, pred):
+def inlined_anchor(P, body, pred, keep=()):
     """`body` with every crate helper that (transitively) performs a call satisfying pred(norm
-    callee) spliced in (see mirlib/inline.py); the body itself when there is nothing to inline."""
+    callee) spliced in (see mirlib/inline.py); the body itself when there is nothing to inline.
+    keep: name suffixes of callees that are events of the rule themselves and must stay calls."""
     from mirlib import inline as _inl
-    want = _inl.reaches(P, pred)
+    reach = _inl.reaches(P, pred)
+    want = (lambda g: reach(g) and not g.name.endswith(tuple(keep))) if keep else reach
     nb = _inl.inline(P, body, want)
     return nb if nb.inlined else body
 
